@@ -640,7 +640,7 @@ def tie_one(ctx, lean, X, vt, t, v, log, eps_hex, note, rng):
 
     # ---- likelihood plan
     good = lean.ask('flow good ' + T) == 'ok 1'
-    ctx.count(f'goodVine={int(good)}')
+    ctx.count(f'goodVine={int(good)} type={vt}')
     lplan = parse_levels(lean.ask('flow lik ' + T), 2)
     spec = parse_spec(lean.ask('flow spec ' + T))
     u = np.array([[rng.uniform(0.02, 0.98) for _ in range(d)]])
